@@ -42,13 +42,22 @@ def make_case(seed, idx, tier):
         if (idx // 10) % 4 == 2:
             # both formulations built with result caching on, run one after the other in one process: they visit the same genomes
             d["use_cache"] = True
-        if (idx // 10) % 3 == 1:
+        if (idx // 10) % 5 == 3:
+            # the precision-reached stop condition (a problem wrapper that compares values with the optimum) on both formulations
+            d["gsc"] = {"k": "precision", "eps": rng.choice([1e-1, 1e-2])}
+            st = [f"prec:{d['gsc']['eps']}"]
+            d["levels"][0]["stack"] = st
+            d["levels"][0]["lsc"] = {"k": "dontstop"}
+            d["run_twin_with_precision_gsc"] = True
+        if (idx // 10) % 3 == 1 and d["gsc"]["k"] != "precision":
             # an evaluation-cutoff wrapper that runs out while the run goes on: the +-inf sentinels must mirror too
             d["gsc"] = {"k": "melimit", "n": rng.randint(5, 9)}
             for lv in d["levels"][1:] if rng.random() < 0.7 else d["levels"]:
                 lv["stack"] = [f"cutoff:{rng.choice([40, 90, 150])}"]
         return d
     n = rng.randint(4, 24)
+    if idx % 8 == 7:
+        n = rng.randint(65, 200)  # sizes at which numpy (and any "large population" fast path) switches algorithm
     dim = rng.randint(1, 5)
     ties = rng.choice(["none", "none", "pairs", "levels", "all"])
     genomes = [[rng.uniform(-5, 5) for _ in range(dim)] for _ in range(n)]
@@ -159,6 +168,8 @@ def run_decisions(desc):
     PA, PB = Population.from_individuals(A), Population.from_individuals(B)
     comp("topk")
     comp(f"topk.k={'0' if k == 0 else ('n' if k == n else 'between')}")
+    if n > 64:
+        comp("topk.more_than_64_individuals")
     ta, tb = PA.topk(k), PB.topk(k)
     if ta.size != k or tb.size != k:
         viol("Population.topk(k) does not keep k individuals", k=k, n=n, kept_on_maximisation=int(ta.size), kept_on_minimisation=int(tb.size))
@@ -330,6 +341,8 @@ def run_twin(desc):
     cov["run_twins"] += 1
     if desc.get("use_cache"):
         cov["run_twins_with_result_caching_on_both_formulations"] += 1
+    if desc.get("run_twin_with_precision_gsc"):
+        cov["run_twins_under_the_precision_stop_condition"] += 1
     for lv in desc["levels"]:
         cov[f"twin_engine.{lv['engine']}"] += 1
     if ca.aborted or cb.aborted:
